@@ -58,6 +58,9 @@ def run(eng, rep) -> None:
     from .lints import short_islice, stopiteration_in_map
     short_islice(eng, rep, "R16.8", ("fcp.serde",), "a truncated message decodes to fewer elements than its count says, with no error")
     stopiteration_in_map(eng, rep, "R16.8", ("fcp.serde",), "a truncated message decodes to a shorter value, with no error")
+    rep.rule("R16.9", "a memo of per-type sizes that the decoder's bounds checks rely on is keyed by everything that tells two schema types apart")
+    from .lints import type_identity_keys
+    type_identity_keys(eng, rep, "R16.9", ("fcp.serde",))
     rep.assume("fixed-size array loops (range(type.size)) assume size >= 1 ([[u8, 0]] is the pathological schema)")
     cc = find_cursor_class(eng)
     pr = Prims(eng, cc)
